@@ -52,6 +52,10 @@ def run(tier, seed, replay=None):
         prog = gen.gen_feature_program(crng)
         if i % 3 == 1:
             prog.font = variant_font(crng, prog.nglyphs)
+        if i % 6 == 2:
+            # the highest name id of the input font is exactly 256 (255 / 257): the first free id for labels is the next one
+            top = crng.choice([256, 256, 255, 257])
+            prog.font = ttf.simple_font(prog.nglyphs, names=ttf.default_names("Verif", extra={top: "Stylistic Set 1"}))[0]
         nstart = None
         opts = []
         if i % 4 == 3:
